@@ -727,3 +727,13 @@ fire("c16-add-refills-dispatch-cache", "C16", REGISTRY,
 rename("C05", "funsor/integrate.py", "Integrate._alpha_convert")
 rename("C05", "funsor/sum_product.py", "MarkovProduct._alpha_convert")
 rename("C05", "funsor/sum_product.py", "sequential_sum_product")
+
+
+# `if c: A else: B` -> `if not c: B else: A` in the anchor functions (behaviour-preserving)
+def invert(prop, file, qual):
+    V.append(dict(id=f"{prop.lower()}-s-invert-ifs:{qual}", prop=prop, kind="silent", transform=("invert_ifs", file, qual)))
+
+
+for _v in list(V):
+    if _v.get("transform") and _v["transform"][0] == "rename_locals":
+        invert(_v["prop"], _v["transform"][1], _v["transform"][2])
